@@ -236,3 +236,123 @@ func VPH_C12_auth() {
 }
 
 func vpTLSState() *tls.ConnectionState { return &tls.ConnectionState{} }
+
+// ---------- concrete rule texts, every peer ----------
+
+func vpPick(label string, n int) int {
+	c := vp.Choice(label, n)
+	for i := 0; i < n-1; i++ {
+		if c == i {
+			return i
+		}
+	}
+	return n - 1
+}
+
+func vpIP16(label string) net.IP {
+	ip := make(net.IP, 16)
+	for i := range ip {
+		ip[i] = vp.Uint8(label)
+	}
+	return ip
+}
+
+func vpPeer() net.IP {
+	if vp.Bool("peer-is-v6") {
+		return vpIP16("peer")
+	}
+	return vpIP4("peer")
+}
+
+// vpStrictBlocks: the rule list as a strict reader understands it (nil, false if any item is unusable).
+func vpStrictBlocks(list string) ([]*net.IPNet, bool) {
+	var blocks []*net.IPNet
+	for _, item := range strings.Split(list, ",") {
+		i := strings.Index(item, ":")
+		if i < 0 || strings.ToLower(strings.TrimSpace(item[:i])) != "ip" {
+			return nil, false
+		}
+		v := strings.TrimSpace(item[i+1:])
+		if strings.Contains(v, "/") {
+			_, n, err := net.ParseCIDR(v)
+			if err != nil {
+				return nil, false
+			}
+			blocks = append(blocks, n)
+			continue
+		}
+		ip := net.ParseIP(v)
+		if ip == nil {
+			return nil, false
+		}
+		if ip4 := ip.To4(); ip4 != nil {
+			blocks = append(blocks, &net.IPNet{IP: ip4, Mask: net.CIDRMask(32, 32)})
+		} else {
+			blocks = append(blocks, &net.IPNet{IP: ip, Mask: net.CIDRMask(128, 128)})
+		}
+	}
+	return blocks, true
+}
+
+var vpRuleTexts = []string{
+	"ip:10.0.0.0/8",
+	"ip:192.168.1.7",
+	" IP : 172.16.0.0/12 ",
+	"ip:2001:db8:1:2:a1b2:c3ff:fed4:e5f6", // all groups written out
+	"ip:2001:DB8::/32",
+	"ip:fe80::1",
+	"ip:::ffff:10.1.2.3",
+	"ip:::/0",
+	"ip:10.0.0.0/33",  // unusable: mask
+	"ip:10.0.0.256",   // unusable: address
+	"dns:example.com", // unusable: type
+	"10.0.0.0/8",      // unusable: no type
+	"",                // unusable: empty item
+}
+
+// VPH_C12_rulelist: allow or deny lists of one or two items drawn from valid and unusable
+// spellings (IPv4, IPv6 with and without "::", mapped addresses, blanks, bad masks, other types),
+// against EVERY IPv4 and IPv6 peer: a list with an unusable item admits nobody; a usable list
+// admits / rejects exactly the peers inside its blocks.
+func VPH_C12_rulelist() {
+	n := len(vpRuleTexts)
+	i1 := vpPick("item1", n)
+	list := vpRuleTexts[i1]
+	if vp.Bool("two-items") {
+		list += "," + vpRuleTexts[vpPick("item2", n)]
+	}
+	vp.Assume(list != "")
+	if ns := vp.Param("NSHARDS"); ns > 1 {
+		vp.Assume(i1%ns == vp.Param("SHARD"))
+	}
+	isAllow := vp.Bool("allow-option")
+	opts := map[string]string{"deny": list}
+	if isAllow {
+		opts = map[string]string{"allow": list}
+	}
+	r := &Route{Host: "h", Path: "/"}
+	vpAddTargetOpts(r, opts)
+	vp.Assert(len(r.Targets) == 1, "target-added")
+	t := r.Targets[0]
+	peer := vpPeer()
+	denied := t.denyByIP(peer)
+	blocks, usable := vpStrictBlocks(list)
+	if !usable {
+		vp.Cover("unusable-list")
+		vp.Assert(denied, "unusable-rule-list-admits-nobody")
+		return
+	}
+	inside := false
+	for _, b := range blocks {
+		if b.Contains(peer) {
+			inside = true
+		}
+	}
+	if isAllow {
+		vp.Cover("allow-list")
+		vp.Assert(denied == !inside, "allow-list-admits-exactly-its-blocks")
+	} else {
+		vp.Cover("deny-list")
+		vp.Assert(denied == inside, "deny-list-rejects-exactly-its-blocks")
+	}
+}
